@@ -17,7 +17,7 @@ import (
 )
 
 func init() {
-	Register(&Rule{ID: "ROOTFIELDS", Props: []string{"C05"}, Min: 15,
+	Register(&Rule{ID: "ROOTFIELDS", Props: []string{"C05", "C19"}, Min: 15,
 		Doc: "every field of Root is set by MakeRoot from the corresponding Mast field / flush result (Size←size, Height←height, BranchFactor←branchFactor, NodeFormat←string(nodeFormat), Link←&link or nil iff link==\"\"), " +
 			"set by NewRoot, and read by LoadMast into the corresponding Mast field (size, height, branchFactor, nodeFormat through the format switch, root←*Link or an empty node).",
 		Run: runRootFields})
